@@ -75,6 +75,8 @@ def build(rng, cands, k=1, n_each=100, tagged=None, dialect=None, opts=None, int
         gap = rec['t_us'] - last_t[i]
         last_t[i] = rec['t_us']
         clock = max(0, clock + gap)       # (a clock stepping backwards never goes below zero: libwayland prints unsigned times)
+        if (opts or {}).get('wrap'):
+            clock %= 2 ** 32              # libwayland's 32-bit microsecond counter starts again from zero every 71.6 minutes
         rec = dict(rec)
         rec['t_conn_us'] = rec['t_us']
         rec['t_us'] = clock
